@@ -187,6 +187,10 @@ def run_case(case, ctx):
             probes.make_probe('rf', {'persist', 'initdef'}, hist, {'restore': 'raise'},
                               persistent=True, initdef=1)
         if case.get('slow_init'):
+            # persistent blocks that get their state only in the second initialisation step
+            # (after the asynchronous one): not initialised yet when the stop request arrives
+            edzed.Timer('lp_timer', persistent=True)
+            edzed.Input('lp_input', persistent=True, initdef=3)
             probes.make_probe('slowinit', {'ainit', 'initdef'}, hist, {'init_async': ('ok', 6.0)},
                               init_timeout=8, initdef=1)
         if case.get('harmless') == 'stop_fail':
@@ -238,12 +242,18 @@ def run_case(case, ctx):
         circuit.abort = abort
         if case.get('harmless') == 'restore_fail':
             circuit.set_persistent_data({"<Probe_initdef_persist 'rf'>": 5, 'edzed-stop-time': 0.0})
+        elif case.get('slow_init'):
+            circuit.set_persistent_data({'edzed-stop-time': 0.0})
         t0 = loop.time()
         if any(k == 'B' for k, _ in actions):
             exc = SrcError("B")
             excs['B'] = exc
             fired.append(('B', 'B'))
             circuit.abort(exc)
+            ctx.count('abort_before_start')
+        if any(k == 'BC' for k, _ in actions):
+            # a stop request (cancellation) before the start
+            circuit.abort(asyncio.CancelledError('vf: stop requested before the start'))
             ctx.count('abort_before_start')
         shutdown_results = []
 
@@ -407,7 +417,7 @@ def judge(case, res, fired, excs, hist, ctx):
     if res.get('ready_final'):
         raise core.Violation('ready-after-the-end', f"{where}: is_ready() is true after the end")
     # harmless faults
-    if case.get('harmless') and (not fired or min(t for _, t in case['actions']) >= 1):
+    if case.get('harmless') and (not fired or min((t for _, t in case['actions']), default=99) >= 1):
         ok = res.get('serving_at_0.7')
         if ok is not True and not any(k in ('I', 'B') for k, _ in case['actions']):
             raise core.Violation(
@@ -526,6 +536,12 @@ def gen(ctx):
         cases.append({'mode': 'R', 'actions': [[k, 1]]})
     cases.append({'mode': 'R', 'actions': [['I', 0]]})
     cases.append({'mode': 'R', 'actions': [['B', 0]]})
+    for mode in 'RUN':
+        cases.append({'mode': mode, 'actions': [['BC', 0]]})
+        cases.append({'mode': mode, 'actions': [['BC', 0], ['A', 1]]})
+        if mode != 'R':
+            cases.append({'mode': mode, 'actions': [['B', 0]]})
+            cases.append({'mode': mode, 'actions': [['B', 0], ['A', 1]]})
     cases.append({'mode': 'R', 'actions': []})
     for a, b in itertools.permutations(kindsR, 2):
         cases.append({'mode': 'R', 'actions': [[a, 1], [b, 2]]})
